@@ -450,7 +450,7 @@ def run(tier: str, seed: int, replay: str | None = None) -> int:
     chk.build(["theories/Props/C08.v"], ["OrchHistGen"], known_v=["theories/Props/C08Known.v"])
     phases["build"] = round(_t.time() - t0, 1)
     scale = chk.budget_scale()
-    n = (120 if tier == "quick" else 1400) * scale
+    n = (100 if tier == "quick" else 1200) * scale
     n = min(n, int(os.environ.get("VERIF_CASES_CAP", n)))   # self-test runs on mutated copies use a smaller budget
     max_ops = 12 if tier == "quick" else 16
     if replay:
@@ -513,7 +513,13 @@ def run(tier: str, seed: int, replay: str | None = None) -> int:
         for si, what in impl["side"]:
             chk.violation({"reason": f"lint call {si} had a side effect: {what}", "case": payload})
         tempfile_mode = case["proj"]["config"]["dry"]["storage_mode"] == "tempfile"
+        own_tmp = set()
         for si, what in impl["tmp_left"]:
+            m_own = re.fullmatch(r"(created|modified|deleted) (tmp[^/]*\.db(?:-journal)?)", what)
+            if m_own and m_own.group(1) == "created":
+                own_tmp.add(m_own.group(2))
+            if m_own and m_own.group(1) == "deleted" and m_own.group(2) in own_tmp:
+                continue   # the object removes a temporary database it created in an earlier call: cleanup, not a side effect
             if tempfile_mode and re.fullmatch(r"(created|modified) tmp[^/]*\.db(-journal)?", what):
                 # the DRY tempfile database outlives the call: after a finalizing call because the storage survives
                 # finalize(), after a bare single-file call because its evidence is left pending
